@@ -52,6 +52,9 @@ def case(draw):
             ch["start"] += delta
             if "nums" in ch:
                 ch["nums"] = [x + delta for x in ch["nums"]]
+                if max(ch["nums"]) > 9999 or min(ch["nums"]) < -999:  # outside the 4-character column
+                    ch.pop("nums")
+                    ch.pop("icodes", None)
         chains.append(ch)
     desc = dict(chains=chains)
     desc["waters"] = [dict(draw(strat.water()), chain=draw(st.sampled_from(["W", ids[0], " "])), seq=700 + k,
